@@ -10,6 +10,6 @@ import (
 
 func main() {
 	r := vf.NewRun("C11", "exploration", govdrv.Rule)
-	govdrv.Run(r, govdrv.Cfg{Prop: "C11", Worlds: vf.N(6, 12), Hist: vf.N(120, 1600), Len: 100, AgreeLen: vf.N(70, 200), SampleOps: 12})
+	govdrv.Run(r, govdrv.Cfg{Prop: "C11", Worlds: vf.N(6, 12), Hist: vf.N(120, 900), Len: 100, AgreeLen: vf.N(70, 200), SampleOps: 12})
 	r.Finish()
 }
